@@ -23,38 +23,26 @@ Theorem C14_complete : forall (H : list N -> list N) (ms : list (list N)) (m : l
 Proof. exact complete. Qed.
 
 (* contract level: HasMember answers Ok true for every listed entry with the hex rendering
-   of its proof, against the hex rendering of the root *)
+   of its proof, for ANY spelling of the root that denotes the tree root's bytes (upper,
+   lower or mixed case -- instantiate accepts them all; /repo c2c314c made the comparison
+   case-insensitive, before that an upper-case root could never match) *)
 Theorem C14_complete_sha256 : forall (H : list N -> list N),
   (forall x, length (H x) = 32%nat) -> (forall x, Forall (fun b => b < 256) (H x)) ->
   forall (s : wl_state) (ms : list (list N)) (i : nat) (m : list N),
-  wl_root s = hex_encode (root H ms) -> nth_error ms i = Some m ->
+  hex_decode (wl_root s) = Some (root H ms) -> nth_error ms i = Some m ->
   wl_has_member H s m (map hex_encode (proof_at H ms i)) = Ok true.
 Proof. exact wl_has_member_complete. Qed.
 
 Theorem C14_complete_blake3_16 : forall (H : list N -> list N),
   (forall x, length (H x) = 16%nat) -> (forall x, Forall (fun b => b < 256) (H x)) ->
-  forall (ms : list (list N)) (i : nat) (m : list N),
-  nth_error ms i = Some m ->
-  has_member 16 H (hex_encode (root H ms)) m (map hex_encode (proof_at H ms i)) = Ok true.
+  forall (ms : list (list N)) (i : nat) (m : list N) (rs : list N),
+  nth_error ms i = Some m -> hex_decode rs = Some (root H ms) ->
+  has_member 16 H rs m (map hex_encode (proof_at H ms i)) = Ok true.
 Proof. exact has_member_complete_16. Qed.
 
-(* KNOWN FINDING (C14:*-uppercase-root-never-matches).  The full statement
-     "for every root string that instantiate accepts and that denotes the tree's root,
-      every listed entry is accepted with its proof"
-   is REFUTED for roots written with upper-case hex letters: verify_merkle_root accepts
-   them (HexBinary::from_hex is case-insensitive) but query_has_member compares the stored
-   string with lower-case hex::encode.  C14_complete_sha256 / _blake3_16 above are the
-   statement outside that class (root stored exactly as hex_encode renders it, which is
-   what rs_merkle's root_hex() produces). *)
-Theorem C14_complete_any_accepted_root_refuted :
-  exists root : list N,
-    verify_merkle_root 32 root = Ok tt /\
-    forall (H : list N -> list N) m p, has_member 32 H root m p <> Ok true.
-Proof. exact complete_any_accepted_root_refuted. Qed.
-
-Theorem C14_uppercase_root_never_matches : forall L (H : list N -> list N) root m p c,
-  In c root -> 65 <= c <= 70 -> has_member L H root m p <> Ok true.
-Proof. exact uppercase_root_never_matches. Qed.
+(* the lower-case rendering rs_merkle's root_hex() produces is one such spelling *)
+Theorem C14_lowercase_root_decodes : forall b, Forall (fun x => x < 256) b -> hex_decode (hex_encode b) = Some b.
+Proof. exact hex_encode_decodes. Qed.
 
 (* ---------------- soundness ---------------- *)
 (* byte level.  Accepted => listed, or two different inputs with the same digest (found by
@@ -93,7 +81,7 @@ Proof. exact sound_wellformed. Qed.
    them: the contract's own parsing gives the lengths) *)
 Theorem C14_contract_sound_sha256 : forall (H : list N -> list N), (forall x, length (H x) = 32%nat) ->
   forall (s : wl_state) (ms : list (list N)) (m : list N) (p : list (list N)),
-  ms <> [] -> wl_root s = hex_encode (root H ms) ->
+  ms <> [] -> hex_decode (wl_root s) = Some (root H ms) ->
   wl_has_member H s m p = Ok true ->
   exists bs, Forall2 (fun h b => hex_decode h = Some b /\ length b = 32%nat) p bs /\
    (In m ms \/
@@ -103,9 +91,9 @@ Theorem C14_contract_sound_sha256 : forall (H : list N -> list N), (forall x, le
 Proof. exact wl_has_member_sound. Qed.
 
 Theorem C14_contract_sound_blake3_16 : forall (H : list N -> list N), (forall x, length (H x) = 16%nat) ->
-  forall (ms : list (list N)) (m : list N) (p : list (list N)),
-  ms <> [] ->
-  has_member 16 H (hex_encode (root H ms)) m p = Ok true ->
+  forall (ms : list (list N)) (m : list N) (p : list (list N)) (rs : list N),
+  ms <> [] -> hex_decode rs = Some (root H ms) ->
+  has_member 16 H rs m p = Ok true ->
   exists bs, Forall2 (fun h b => hex_decode h = Some b /\ length b = 16%nat) p bs /\
    (In m ms \/
     (exists x y, find_collision H (calls H ms m bs) = Some (x, y) /\ x <> y /\ H x = H y) \/
@@ -256,6 +244,17 @@ Example C14_ex_malformed_err :
   has_member 2 toyH [48;48;48;48] [97;98] [[48;48;48;48]] = Ok false.
 Proof. vm_compute. split; reflexivity. Qed.
 
+(* an upper-case and a mixed-case spelling of the root accept the member as well *)
+Example C14_ex_root_spelling :
+  let ms := [[97;98]; [99;100]] in
+  let r := hex_encode (root toyH ms) in
+  let p := map hex_encode (proof_at toyH ms 1) in
+  r = [97;51;48;52] /\
+  has_member 2 toyH r [99;100] p = Ok true /\
+  has_member 2 toyH [65;51;48;52] [99;100] p = Ok true /\
+  has_member 2 toyH [65;51;48;53] [99;100] p = Ok false.
+Proof. vm_compute. repeat split; reflexivity. Qed.
+
 (* root immutability is a fact about `execute`'s dispatch: the update handler that exists
    in contract.rs would replace the root if anything called it *)
 Example C14_ex_unreachable_handler_would_change_root :
@@ -284,8 +283,7 @@ Print Assumptions C14_complete_at.
 Print Assumptions C14_complete.
 Print Assumptions C14_complete_sha256.
 Print Assumptions C14_complete_blake3_16.
-Print Assumptions C14_complete_any_accepted_root_refuted.
-Print Assumptions C14_uppercase_root_never_matches.
+Print Assumptions C14_lowercase_root_decodes.
 Print Assumptions C14_sound_sha256.
 Print Assumptions C14_sound_blake3_16.
 Print Assumptions C14_sound_wellformed.
